@@ -22,7 +22,7 @@ THEOREM_BACKED = ("seq_counts* (sequential decoder model returns exactly the cou
 CORRESPONDENCE_ONLY = "Edgebreaker and kd-tree streams: implementation-only oracle (counts compared on the real outputs)"
 EXPLANATION = ("the fan theorem is about an abstract model of the two counting procedures (one vertex at a time); it is tied to "
                "the code only through the oracle on generated fans")
-TIMEOUT = 3000
+TIMEOUT = 900
 CHECKS = {"counts"}
 
 
